@@ -335,6 +335,8 @@ Section OneWorker.
         unfold files_of; cbn [flat_map]; rewrite P; cbn [app]; reflexivity.
     - cbn [rev]. now rewrite <- app_assoc.
     - unfold gcancel in G. cbn [ws mg m_err] in G. rewrite orb_true_r in G. discriminate.
+    - (* the walker drops a path: only after a failure *)
+      unfold gcancel in *. cbn [ws mg] in *. congruence.
     - unfold gcancel in *. cbn [ws mg app existsb w_err] in *. congruence.
   Qed.
 
